@@ -474,6 +474,10 @@ class HAPServerHandler:
             )
             return
 
+        # The SRP exchange is single use: once it has produced a pairing it
+        # must not accept the same (replayed) M5 again, e.g. after an unpair.
+        self.accessory_handler.srp_verifier = None
+
         tlv_data = tlv.encode(
             HAP_TLV_TAGS.SEQUENCE_NUM,
             HAP_TLV_STATES.M6,
